@@ -86,10 +86,28 @@ def run(ctx):
         else:
             r.bad("sorted", "indices are not sorted before gitignore picks the last one", fn=f, construct="sort")
 
-    with ctx.rule("C04.LINE", "gitignore line parsing: glob options, flags, implicit **/ prefix, skipped lines, pairing", floor=11,
+    with ctx.rule("C04.LINE", "gitignore line parsing: glob options, flags, implicit **/ prefix, skipped lines, pairing", floor=12,
                   kind="WIRE/GUARD") as r:
         f = facts.fn(GIB + "::add_line")
         eb = ExprBuilder(f)
+        # nothing left after the `!` / `/` prefixes and the trailing `/` were stripped ⇒ the line is skipped. Otherwise the
+        # empty glob gets its `**/` prefix and matches (or, for `!`, re-includes) every path below the ignore file.
+        empties = cond_switches(f, lambda e: is_call(e, "str::is_empty"), eb)
+        build = [c for c in f.calls() if c.path == GB + "::new"]
+        stripped = [sw_ for sw_ in empties if any(is_call(x, "core::ops::index::Index::index", "core::str::traits::<impl core::ops::index::Index<I> for str>::index")
+                                                   or (x.k == "call" and x[1].endswith("::index")) for x in walk(sw_[3]))]
+        bang = [c for c in f.calls() if c.path.endswith("str::starts_with") and
+                any(x.k == "const" and x[2] and str(x[2]).strip() == '"!"' for x in walk(eb.operand(c.args[1])))]
+        # a test that lies after the `!` strip (reachable from it, not the other way round) and guards the glob construction
+        ok_empty = [sw_ for sw_ in stripped if bang and build and
+                    all(sw_[0] in C.reach(f, [b_.bb]) and b_.bb not in C.reach(f, [sw_[0]]) for b_ in bang) and
+                    not guarded(f, [build[0].bb], [sw_], False)]
+        if ok_empty:
+            r.ok("empty-after-prefix", "pattern empty after stripping `!`, `/` and the trailing `/` ⇒ line skipped", fn=f)
+        else:
+            r.bad("empty-after-prefix", "add_line tests for an empty line only before the `!` / `/` prefixes are stripped: a line "
+                  "consisting of `!` (or `/`) becomes the glob `**/` and re-includes (ignores) everything below the ignore file; "
+                  "git gives such a line no effect", fn=f, construct="empty-pattern")
         for m, pred, desc in (("literal_separator", lambda e: W.const_val(e) == 1, "true"),
                               ("backslash_escape", lambda e: W.const_val(e) == 1, "true"),
                               ("case_insensitive", lambda e: W.field_of(e, GIB, "case_insensitive"), "self.case_insensitive")):
